@@ -426,7 +426,17 @@ fn reradix(v: u64, orig: Radix, ch: &mut Ch, st: &mut LayoutStats) -> String {
     if r != orig {
         st.reradixed += 1;
     }
-    fmt_num(v, r)
+    let t = fmt_num(v, r);
+    // hexadecimal, binary and octal literals may carry any number of leading zeros
+    if !matches!(r, Radix::Dec) && ch.chance(1, 5) {
+        st.reradixed += 1;
+        let pad = "0".repeat(*ch.choose(&[1usize, 2, 8, 17, 40, 70]));
+        return match r {
+            Radix::Oct => format!("0{pad}{}", &t[1..]),
+            _ => format!("{}{pad}{}", &t[..2], &t[2..]),
+        };
+    }
+    t
 }
 
 /// Render token lines to text. With an exhausted choice stream (or `LayoutOpts::CANON`) the
